@@ -8,7 +8,7 @@ import itertools
 import json
 import re
 
-from .. import core, enum, hostile, outparse, probes
+from .. import core, enum, hostile, outparse, probes, stretch
 
 ID = 'C04'
 RULE = ('inline: every payload up to the bound over the 26-symbol punctuation alphabet, encoded in three ways (all specials escaped / balanced braces bare / every character escaped), '
@@ -555,6 +555,13 @@ def run_shard(desc, ctx):
                 mon.inline(p, rng.randint(0, 2), ti, 'inline:random')
             q = nested_payload(rng)
             mon.inline(q, rng.randint(0, 1), rng.randrange(len(TEMPLATES)), 'inline:nested')
+        import emmet as _em
+        from emmet.scanner import ScannerException as _SE
+        from emmet.token_scanner import TokenScannerException as _TE
+        for ab in stretch.near_miss_inputs(rng, ['p{<%s}', 'li{<%s/>}*2', 'ul>li{<%s}+li', 'p{%s}', '{<%s}'], 12):
+            stretch.must_return(ctx, _em.expand, (ab, {'options': {'output.format': rng.random() < 0.5}}), {'part': 'near-miss', 'abbr': ab, '_allowed': (_SE, _TE)})
+        for line in stretch.near_miss_inputs(rng, stretch.WRAP_RUN_LINES, 12):
+            stretch.must_return(ctx, _em.expand, (rng.choice(['ul>li*', 'p', 'div>p*>b']), {'text': [line, 'two']}), {'part': 'near-miss', 'wrap_line': line, '_allowed': (_SE, _TE)})
         for _ in range(desc['wrap'] // 2):
             root, imp = gen_wrap_tree(rng)
             lines = [rng.choice(LINES) for _ in range(rng.randint(0, 5))]
